@@ -27,10 +27,11 @@ def put : Table → String → Int → Table
   | [], s, v => [(s, v)]
   | (k, w) :: t, s, v => if k = s then (k, v) :: t else (k, w) :: put t s v
 
-/-- `delete(m, k)` -/
+/-- `delete(m, k)` (keys are unique by construction — `put` never duplicates one — so removing every
+    entry of `k` is removing *the* entry) -/
 def del : Table → String → Table
   | [], _ => []
-  | (k, w) :: t, s => if k = s then t else (k, w) :: del t s
+  | (k, w) :: t, s => if k = s then del t s else (k, w) :: del t s
 
 /-- the fields `connections`, `totalConnections` -/
 structure State where
